@@ -60,6 +60,29 @@ func init() {
 		}
 		return reOf(ex, fr, a[0]).Match(b)
 	}
+	intrinsics["(*regexp.Regexp).FindAllString"] = func(ex *Exec, fr *frame, a []Value) Value {
+		s, ok := a[1].(string)
+		n, okn := a[2].(BV)
+		if !ok || !okn || !n.IsConc() {
+			ex.unsupported(fr, "regexp FindAllString on symbolic arguments")
+		}
+		ms := reOf(ex, fr, a[0]).FindAllString(s, int(n.Signed()))
+		if ms == nil {
+			return []Value(nil)
+		}
+		out := make([]Value, len(ms))
+		for i, m := range ms {
+			out[i] = m
+		}
+		return out
+	}
+	intrinsics["(*regexp.Regexp).FindString"] = func(ex *Exec, fr *frame, a []Value) Value {
+		s, ok := a[1].(string)
+		if !ok {
+			ex.unsupported(fr, "regexp FindString on a symbolic string")
+		}
+		return reOf(ex, fr, a[0]).FindString(s)
+	}
 	intrinsics["(*regexp.Regexp).String"] = func(ex *Exec, fr *frame, a []Value) Value {
 		return reOf(ex, fr, a[0]).String()
 	}
